@@ -4,14 +4,11 @@
 #include "brute.hh"
 #include "menu.hh"
 #include "oracle_c01.hh"
+#include "oracles_fwd.hh"
+#include "oracle_state.hh"
+#include "oracle_special.hh"
 
 namespace mc {
-
-struct Stats {
-    std::map<std::string, long> counts;
-    std::map<std::string, std::set<std::string>> outcomes;
-    void hit(const std::string &k, long n = 1) { counts[k] += n; }
-};
 
 // ------------------------------------------------------------------------------------------- C03 helpers
 template <class Tag, class LabelF>
@@ -93,19 +90,107 @@ inline SlotView slot_view(const Sys &s) {
     return r;
 }
 
+// ------------------------------------------------------------------------------------------- C12 helpers
+inline std::string handle_defs(const Mesh &m) {
+    std::ostringstream o;
+    o << m.n_vertices() << '/' << m.n_edges() << '/' << m.n_faces() << '/' << m.n_cells() << " d" << m.deferred_deletion_enabled() << m.fast_deletion_enabled()
+      << " g" << m.needs_garbage_collection() << " V";
+    for (size_t i = 0; i < m.n_vertices(); ++i) o << (m.is_deleted(VertexHandle((int)i)) ? 'x' : '.');
+    o << " E";
+    for (size_t i = 0; i < m.n_edges(); ++i) { EdgeHandle h((int)i); if (m.is_deleted(h)) o << "x,"; else o << m.edge(h).from_vertex().idx() << '>' << m.edge(h).to_vertex().idx() << ','; }
+    o << " F";
+    for (size_t i = 0; i < m.n_faces(); ++i) { FaceHandle h((int)i); if (m.is_deleted(h)) o << "x,"; else { for (auto he : m.face(h).halfedges()) o << he.idx() << ' '; o << ','; } }
+    o << " C";
+    for (size_t i = 0; i < m.n_cells(); ++i) { CellHandle h((int)i); if (m.is_deleted(h)) o << "x,"; else { for (auto hf : m.cell(h).halffaces()) o << hf.idx() << ' '; o << ','; } }
+    return o.str();
+}
+
+// circulators that (logically) need a disabled incidence kind must be invalid immediately
+inline void check_disabled_circulators(const Sys &s, const Bf &bf, Viols &vs) {
+    const Mesh &m = s.m;
+    const bool vbu = m.has_vertex_bottom_up_incidences(), ebu = m.has_edge_bottom_up_incidences(), fbu = m.has_face_bottom_up_incidences();
+    auto must_be_invalid = [&](bool valid, const char *name, int h) { if (valid) VIOL(vs, std::string("c12:circulator-valid-without-incidences:") + name, name << "(" << h << ") is valid although an incidence kind it needs is disabled"); };
+    for (int v = 0; v < bf.nv; ++v) {
+        if (bf.vdel[v]) continue;
+        VertexHandle h(v);
+        if (!vbu) { must_be_invalid(m.voh_iter(h).valid(), "voh_iter", v); must_be_invalid(m.vih_iter(h).valid(), "vih_iter", v); must_be_invalid(m.vv_iter(h).valid(), "vv_iter", v); must_be_invalid(m.ve_iter(h).valid(), "ve_iter", v); }
+        if (!vbu || !ebu) { must_be_invalid(m.vhf_iter(h).valid(), "vhf_iter", v); must_be_invalid(m.vf_iter(h).valid(), "vf_iter", v); }
+        if (!vbu || !ebu || !fbu) must_be_invalid(m.vc_iter(h).valid(), "vc_iter", v);
+    }
+    for (int he = 0; he < 2 * bf.ne; ++he) {
+        if (bf.edel[he / 2]) continue;
+        HalfEdgeHandle h(he);
+        if (!ebu) { must_be_invalid(m.hehf_iter(h).valid(), "hehf_iter", he); must_be_invalid(m.hef_iter(h).valid(), "hef_iter", he); }
+        if (!ebu || !fbu) must_be_invalid(m.hec_iter(h).valid(), "hec_iter", he);
+        if ((he & 1) == 0) {
+            EdgeHandle e(he / 2);
+            if (!ebu) { must_be_invalid(m.ehf_iter(e).valid(), "ehf_iter", he / 2); must_be_invalid(m.ef_iter(e).valid(), "ef_iter", he / 2); }
+            if (!ebu || !fbu) must_be_invalid(m.ec_iter(e).valid(), "ec_iter", he / 2);
+        }
+    }
+    for (int hf = 0; hf < 2 * bf.nf; ++hf) {
+        if (bf.fdel[hf / 2]) continue;
+        if (!fbu || !ebu) must_be_invalid(m.bhfhf_iter(HalfFaceHandle(hf)).valid(), "bhfhf_iter", hf);
+    }
+    for (int c = 0; c < bf.nc; ++c) {
+        if (bf.cdel[c]) continue;
+        if (!fbu) must_be_invalid(m.cc_iter(CellHandle(c)).valid(), "cc_iter", c);
+#if defined(MC_TET)
+        if (!fbu && bf.chf[c].size() == 4) must_be_invalid(m.tv_iter(CellHandle(c)).valid(), "tv_iter", c);
+#elif defined(MC_HEX)
+        if (!fbu && bf.chf[c].size() == 6) {
+            must_be_invalid(m.hv_iter(CellHandle(c)).valid(), "hv_iter", c);
+            for (int d = 0; d < 6; ++d) must_be_invalid(m.csc_iter(CellHandle(c), (unsigned char)d).valid(), "csc_iter", c);
+        }
+#endif
+    }
+}
+
+inline bool is_bu_toggle(const Op &o) { return o.k == VBU || o.k == EBU || o.k == FBU; }
+
 // ------------------------------------------------------------------------------------------- dispatch
 struct PropChecks {
     std::string prop;
-    bool c01 = false, c02 = false, c03 = false, c17 = false;
+    bool c01 = false, c02 = false, c03 = false, c17 = false, c12 = false, c05 = false, c08 = false, c09 = false, c10 = false;
     explicit PropChecks(const std::string &p) : prop(p) {
-        c01 = p == "C01"; c02 = p == "C02"; c03 = p == "C03"; c17 = p == "C17";
+        c01 = p == "C01"; c02 = p == "C02"; c03 = p == "C03"; c17 = p == "C17"; c12 = p == "C12";
+        c05 = p == "C05"; c08 = p == "C08"; c09 = p == "C09"; c10 = p == "C10";
     }
 
-    std::vector<Op> menu(const Sys &s, const Bf &bf, unsigned alpha, const Caps &caps) { return mc::menu(s, bf, alpha, caps); }
+    std::vector<Op> menu(const Sys &s, const Bf &bf, unsigned alpha, const Caps &caps) {
+        auto ops = mc::menu(s, bf, alpha, caps);
+        if (c12) {
+            // add_face(vertices) may reuse any of several parallel live edges; which one is unspecified and
+            // legitimately depends on the incidence configuration, so such calls are left out of the differential run
+            std::vector<Op> r;
+            for (auto &o : ops) {
+                bool amb = false;
+                if (o.k == ADD_FACE_V)
+                    for (int i = 0; i < o.n && !amb; ++i) {
+                        int a = o.a[i], b = o.a[(i + 1) % o.n], cnt = 0;
+                        for (int e = 0; e < bf.ne; ++e) if (!bf.edel[e] && ((bf.ev[e][0] == a && bf.ev[e][1] == b) || (bf.ev[e][0] == b && bf.ev[e][1] == a))) ++cnt;
+                        amb = cnt > 1;
+                    }
+                if (!amb) r.push_back(o);
+            }
+            return r;
+        }
+        return ops;
+    }
 
     // Executes o on s (and labels new entities), checking the transition-level rules of the selected property.
     void transition(Sys &s, const Op &o, Viols &vs, Stats &st, const std::string &seed, const Config &cfg, const Hist &pre_hist) {
-        const bool need_abs = c02 || c03 || c17;
+        const bool need_abs = c02 || c03 || c17 || c12;
+        std::unique_ptr<Sys> twin;
+        if (c12) {
+            // the twin runs the same history with every incidence kind permanently enabled
+            Config tc = cfg; tc.vbu = tc.ebu = tc.fbu = true;
+            g_phase = "twin-rebuild";
+            twin.reset(new Sys(tc));
+            build_seed(*twin, seed);
+            for (auto &po : pre_hist) if (!is_bu_toggle(po)) { exec_op(*twin, po); twin->label_new(); }
+            g_phase = "transition";
+        }
         Abs pre;
         LOp lo;
         SlotView sv_pre;
@@ -127,7 +212,7 @@ struct PropChecks {
         if (need_abs) {
             Viols ev;
             Abs post = extract(s, ev);
-            const char *pfx = c02 ? "c02:" : c03 ? "c03:label-" : "c17:";
+            const char *pfx = c02 ? "c02:" : c03 ? "c03:label-" : c12 ? "c12:" : "c17:";
             if (!ev.empty()) { vs.push_back({pfx + ev[0].rule, ev[0].detail}); return; }
             Abs exp = pre;
             Viols av;
@@ -135,7 +220,29 @@ struct PropChecks {
             for (auto &v : av) vs.push_back(v);
             abs_compare(exp, post, (std::string(pfx) + "iso:").c_str(), vs);
             st.hit("iso-compare");
-            if (c02) { Viols cv; check_counts(s, exp, cv); for (auto &v : cv) vs.push_back({"c02:" + v.rule, v.detail}); st.hit("count-check"); }
+            if (c02 || c12) { Viols cv; check_counts(s, exp, cv); for (auto &v : cv) vs.push_back({std::string(c02 ? "c02:" : "c12:") + v.rule, v.detail}); st.hit("count-check"); }
+        }
+        if (c12 && vs.empty()) {
+            Viols pv; check_c03_state(s, pv);
+            for (auto &v : pv) vs.push_back({"c12:" + v.rule, v.detail});
+            if (!is_bu_toggle(o)) { g_phase = "twin-exec"; exec_op(*twin, o); twin->label_new(); g_phase = "post-check"; }
+            std::string a = handle_defs(s.m), b = handle_defs(twin->m);
+            if (a != b) VIOL(vs, "c12:twin:definitions", "with incidences " << s.m.has_vertex_bottom_up_incidences() << s.m.has_edge_bottom_up_incidences() << s.m.has_face_bottom_up_incidences()
+                                                                             << " the mesh is " << a << " but with all incidences enabled it is " << b);
+            else {
+                SlotView x = slot_view(s), y = slot_view(*twin);
+                if (x.v != y.v || x.e != y.e || x.he != y.he || x.f != y.f || x.hf != y.hf || x.c != y.c) VIOL(vs, "c12:twin:properties", "property values differ from the all-enabled twin");
+            }
+            st.hit("twin-compare");
+            if (vs.empty() && is_bu_toggle(o) && o.a[0]) {
+                // re-enabled: the recomputed incidence arrays equal the ones of the never-disabled twin (as multisets per entry)
+                const TopologyKernel &ts = s.m, &tt = twin->m;
+                auto ms = [](auto v) { std::sort(v.begin(), v.end()); return v; };
+                if (o.k == VBU) { for (size_t i = 0; i < ts.outgoing_hes_per_vertex_.size(); ++i) if (!ts.vertex_deleted_[VertexHandle((int)i)] && ms(ts.outgoing_hes_per_vertex_[VertexHandle((int)i)]) != ms(tt.outgoing_hes_per_vertex_[VertexHandle((int)i)])) VIOL(vs, "c12:reenable:vertex", "outgoing halfedges of vertex " << i << " differ from the never-disabled twin"); }
+                if (o.k == EBU) { for (size_t i = 0; i < ts.incident_hfs_per_he_.size(); ++i) if (!ts.edge_deleted_[EdgeHandle((int)i / 2)] && ms(ts.incident_hfs_per_he_[HalfEdgeHandle((int)i)]) != ms(tt.incident_hfs_per_he_[HalfEdgeHandle((int)i)])) VIOL(vs, "c12:reenable:edge", "halffaces of halfedge " << i << " differ from the never-disabled twin"); }
+                if (o.k == FBU) { for (size_t i = 0; i < ts.incident_cell_per_hf_.size(); ++i) if (!ts.face_deleted_[FaceHandle((int)i / 2)] && ts.incident_cell_per_hf_[HalfFaceHandle((int)i)] != tt.incident_cell_per_hf_[HalfFaceHandle((int)i)]) VIOL(vs, "c12:reenable:face", "incident cell of halfface " << i << " differs from the never-disabled twin"); }
+                st.hit("reenable-compare");
+            }
         }
         if (c03 && vs.empty()) { check_c03_state(s, vs); st.hit("c03-state"); }
         if (c17 && is_swap && vs.empty()) check_swap(s, o, sv_pre, key_pre, vs, st);
@@ -180,6 +287,23 @@ struct PropChecks {
             st.hit("c01-state");
         }
         if (c03) { check_c03_state(s, vs); }
+        if (c05 || c08 || c09 || c10) {
+            Bf bf(s.m);
+            if (bf.malformed) { VIOL(vs, "malformed-state", "a live entity refers to a deleted or out-of-range sub-entity"); return; }
+            if (c05) { g_phase = "c05"; check_c05(s, bf, vs, st); }
+            if (c08) { g_phase = "c08"; check_c08(s, bf, vs, st); }
+            if (c09) { g_phase = "c09"; check_c09(s, bf, vs, st); }
+            if (c10) { g_phase = "c10"; check_c10(s, bf, vs, st); }
+        }
+        if (c12) {
+            Bf bf(s.m);
+            Viols cv;
+            check_c01(s, bf, cv);  // queries are only issued for enabled kinds
+            for (auto &v : cv) vs.push_back({"c12:incidence:" + v.rule, v.detail});
+            g_phase = "disabled-circulators";
+            if (!bf.malformed) check_disabled_circulators(s, bf, vs);
+            st.hit("c12-state");
+        }
     }
 };
 
